@@ -13,6 +13,8 @@ import (
 	"fmt"
 	"sort"
 	"strings"
+	"sync/atomic"
+	"time"
 
 	"github.com/gocql/gocql"
 	"verifharness/vh"
@@ -47,6 +49,7 @@ type polEnv struct {
 	sess   int
 	schema map[int]string // ks -> e | u | s:<rf> | n:<dc=rf,...>
 	dead   bool           // a panic escaped from the policy (its mutex stays locked)
+	gate   *readGate      // conducted schedule: parks the first getKeyspaceMetadata call
 
 	// the harness's own bookkeeping of the history, used ONLY to classify queries (spec-backed or not)
 	part    string
@@ -80,6 +83,10 @@ func (e *polEnv) read(ks string) (*gocql.KeyspaceMetadata, error) {
 	var k int
 	if _, err := fmt.Sscanf(ks, "ks%d", &k); err != nil {
 		return nil, errors.New("verif: no such keyspace")
+	}
+	if g := e.gate; g != nil && atomic.CompareAndSwapInt32(&g.armed, 1, 0) {
+		close(g.parked)
+		<-g.release
 	}
 	sc, ok := e.schema[k]
 	if !ok || sc == "e" {
@@ -241,6 +248,93 @@ func (e *polEnv) uniAt(s string) *polHost {
 	return &e.uni[i]
 }
 
+// prep resolves one policy event into the call into the REAL policy and the harness's bookkeeping of it (the
+// bookkeeping classifies later queries; it is applied after the call, in the serial order of the calls)
+func (e *polEnv) prep(w []string) (call func(), book func(), ok bool) {
+	if len(w) < 2 {
+		return nil, nil, false
+	}
+	switch w[0] {
+	case "add":
+		h := e.uniAt(w[1])
+		if h == nil {
+			return nil, nil, false
+		}
+		return func() { e.pol.AddHost(h.obj) }, func() {
+			if !e.addrs[h.addr] {
+				e.addrs[h.addr] = true
+				e.recomputed()
+			}
+		}, true
+	case "addmany":
+		var hs []*gocql.HostInfo
+		var objs []*polHost
+		if w[1] != "-" {
+			for _, s := range strings.Split(w[1], ",") {
+				h := e.uniAt(s)
+				if h == nil {
+					return nil, nil, false
+				}
+				hs = append(hs, h.obj)
+				objs = append(objs, h)
+			}
+		}
+		return func() { e.pol.(interface{ AddHosts([]*gocql.HostInfo) }).AddHosts(hs) }, func() {
+			for _, h := range objs {
+				e.addrs[h.addr] = true
+			}
+			e.recomputed()
+		}, true
+	case "rem":
+		h := e.uniAt(w[1])
+		if h == nil {
+			return nil, nil, false
+		}
+		return func() { e.pol.RemoveHost(h.obj) }, func() {
+			if e.addrs[h.addr] {
+				delete(e.addrs, h.addr)
+				e.recomputed()
+			}
+		}, true
+	case "up":
+		h := e.uniAt(w[1])
+		if h == nil {
+			return nil, nil, false
+		}
+		return func() { e.pol.HostUp(h.obj) }, func() {}, true
+	case "down":
+		h := e.uniAt(w[1])
+		if h == nil {
+			return nil, nil, false
+		}
+		return func() { e.pol.HostDown(h.obj) }, func() {}, true
+	case "part":
+		full, okp := partFull[w[1]]
+		if !okp {
+			return nil, nil, false
+		}
+		return func() { e.pol.SetPartitioner(full) }, func() {
+			if w[1] != e.part {
+				e.part = w[1]
+				if w[1] == "k" || w[1] == "e" {
+					e.partBad = true
+				} else {
+					e.hasRing = true
+				}
+				e.recomputed()
+			}
+		}, true
+	case "kc":
+		var k int
+		if _, err := fmt.Sscan(w[1], &k); err != nil {
+			return nil, nil, false
+		}
+		return func() { e.pol.KeyspaceChanged(gocql.KeyspaceUpdateEvent{Keyspace: ksName(k), Change: "UPDATED"}) },
+			func() { e.readKs(k) }, true
+	}
+	return nil, nil, false
+}
+
 func polEvent(w []string) (res string) {
 	e := curPol
 	if e == nil {
@@ -258,80 +352,97 @@ func polEvent(w []string) (res string) {
 	if len(w) < 3 {
 		return "bad-op"
 	}
-	switch w[1] {
-	case "add":
-		h := e.uniAt(w[2])
-		if h == nil {
-			return "bad-op"
-		}
-		e.pol.AddHost(h.obj)
-		if !e.addrs[h.addr] {
-			e.addrs[h.addr] = true
-			e.recomputed()
-		}
-	case "addmany":
-		var hs []*gocql.HostInfo
-		if w[2] != "-" {
-			for _, s := range strings.Split(w[2], ",") {
-				h := e.uniAt(s)
-				if h == nil {
-					return "bad-op"
-				}
-				hs = append(hs, h.obj)
-				e.addrs[h.addr] = true
-			}
-		}
-		e.pol.(interface{ AddHosts([]*gocql.HostInfo) }).AddHosts(hs)
-		e.recomputed()
-	case "rem":
-		h := e.uniAt(w[2])
-		if h == nil {
-			return "bad-op"
-		}
-		e.pol.RemoveHost(h.obj)
-		if e.addrs[h.addr] {
-			delete(e.addrs, h.addr)
-			e.recomputed()
-		}
-	case "up":
-		h := e.uniAt(w[2])
-		if h == nil {
-			return "bad-op"
-		}
-		e.pol.HostUp(h.obj)
-	case "down":
-		h := e.uniAt(w[2])
-		if h == nil {
-			return "bad-op"
-		}
-		e.pol.HostDown(h.obj)
-	case "part":
-		full, ok := partFull[w[2]]
-		if !ok {
-			return "bad-op"
-		}
-		e.pol.SetPartitioner(full)
-		if w[2] != e.part {
-			e.part = w[2]
-			if w[2] == "k" || w[2] == "e" {
-				e.partBad = true
-			} else {
-				e.hasRing = true
-			}
-			e.recomputed()
-		}
-	case "kc":
-		var k int
-		if _, err := fmt.Sscan(w[2], &k); err != nil {
-			return "bad-op"
-		}
-		e.pol.KeyspaceChanged(gocql.KeyspaceUpdateEvent{Keyspace: ksName(k), Change: "UPDATED"})
-		e.readKs(k)
-	default:
+	call, book, ok := e.prep(w[1:])
+	if !ok {
 		return "bad-op"
 	}
+	call()
+	book()
 	return e.dump()
 }
+
+// readGate parks the first getKeyspaceMetadata call made while it is armed
+type readGate struct {
+	armed   int32
+	parked  chan struct{}
+	release chan struct{}
+}
+
+// polConc: a CONDUCTED SCHEDULE of two mutators of the real policy. The harness owns getKeyspaceMetadata: mutator A is
+// started on its own goroutine and parked inside that callback (if it makes the call at all); mutator B is then run on a
+// second goroutine until it completes or blocks (on the unchanged code every mutator but HostUp / HostDown blocks on the
+// policy mutex A holds - a legal outcome, detected by a short settle, never by timing a result: the answer does not
+// contain who waited); A is released, both are awaited. The answer is the metadata dump after both: for atomic
+// (linearizable) mutators it must be the dump of a serial order of the two calls (C10_mutators_linearizable) - with A
+// parked before B starts that is the order A, B.
+func polConc(w []string) (res string) {
+	e := curPol
+	if e == nil {
+		return "bad-op"
+	}
+	if e.dead {
+		return "dead"
+	}
+	sep := -1
+	for i, x := range w {
+		if x == "/" {
+			sep = i
+		}
+	}
+	if sep < 2 || sep+1 >= len(w) {
+		return "bad-op"
+	}
+	callA, bookA, okA := e.prep(w[1:sep])
+	callB, bookB, okB := e.prep(w[sep+1:])
+	if !okA || !okB {
+		return "bad-op"
+	}
+	g := &readGate{armed: 1, parked: make(chan struct{}), release: make(chan struct{})}
+	e.gate = g
+	defer func() { e.gate = nil }()
+	crash := make(chan string, 2)
+	run := func(f func(), done chan struct{}) {
+		defer close(done)
+		defer func() {
+			if r := recover(); r != nil {
+				crash <- crashClass(r)
+			}
+		}()
+		f()
+	}
+	doneA, doneB := make(chan struct{}), make(chan struct{})
+	go run(callA, doneA)
+	select {
+	case <-g.parked:
+	case <-doneA:
+	}
+	go run(callB, doneB)
+	select {
+	case <-doneB:
+	case <-time.After(polSettle):
+	}
+	atomic.StoreInt32(&g.armed, 0)
+	close(g.release)
+	for _, d := range []chan struct{}{doneA, doneB} {
+		select {
+		case <-d:
+		case <-time.After(10 * time.Second):
+			e.dead = true
+			return "hang"
+		}
+	}
+	select {
+	case c := <-crash:
+		e.dead = true
+		return c
+	default:
+	}
+	bookA()
+	bookB()
+	return e.dump()
+}
+
+const polSettle = 15 * time.Millisecond
 
 func polSchema(w []string) string {
 	e := curPol
@@ -685,7 +796,37 @@ func (ru *run) polScenario(long bool) {
 	if long {
 		steps = 20 + r.Intn(30)
 	}
+	mut := func(ringish bool) string {
+		switch x := r.Intn(10); {
+		case x < 3:
+			return fmt.Sprintf("add %d", r.Intn(n))
+		case x < 6:
+			return fmt.Sprintf("rem %d", r.Intn(n))
+		case x < 7:
+			return "part " + supported[r.Intn(3)]
+		case x < 8 && !ringish:
+			return fmt.Sprintf("%s %d", []string{"up", "down"}[r.Intn(2)], r.Intn(n))
+		case x < 9:
+			return fmt.Sprintf("addmany %d,%d", r.Intn(n), r.Intn(n))
+		}
+		return fmt.Sprintf("kc %d", r.Intn(nKs))
+	}
 	for s := 0; s < steps && !e.dead; s++ {
+		if r.Intn(25) == 0 {
+			// a conducted schedule of two mutators: A parked inside its getKeyspaceMetadata call while B runs
+			a := fmt.Sprintf("kc %d", r.Intn(nKs))
+			if r.Intn(3) == 0 {
+				a = mut(true)
+			}
+			b := mut(false)
+			ka, kb := strings.Fields(a)[0], strings.Fields(b)[0]
+			g.do("pconc "+a+" / "+b, "pconc(spec)/"+ka+"-in-flight/"+kb)
+			ru.nConc++
+			if !e.dead {
+				g.queries(true)
+			}
+			continue
+		}
 		x := r.Intn(100)
 		switch {
 		case x < 22:
@@ -768,6 +909,15 @@ func (ru *run) polFixed() {
 		"pev add 2", "pev rem 1", "pfresh", "psettled", "prepl 1 15 25", "spick 1 15 25",
 		"pev part m", "prepl 1 15 25", "pev part o", "psch 1 e", "pev add 1", "psettled", "prepl 1 15 25", "spick 1 15 25",
 		"psch 1 s:2", "pev rem 0", "pfresh", "psettled", "xprepl 1 15 25", "pev kc 1", "prepl 1 15 25")
+	// conducted schedules: a KeyspaceChanged whose schema read is in flight while a node joins / leaves / the
+	// partitioner is set; a node joining while another topology event is in flight
+	seq("resetpol 0 1/1/1/1/10 2/2/1/1/20 3/3/1/1/30 4/4/1/1/40",
+		"psch 0 s:2", "pev part o", "pev add 0", "pev add 1", "pev add 2", "pev kc 0", "prepl 0 5 15 25 35 40 45",
+		"pconc kc 0 / add 3", "psettled", "prepl 0 5 15 25 35 40 45", "spick 0 5 15 25 35 40 45",
+		"pconc kc 0 / rem 1", "prepl 0 5 15 25 35 40 45", "spick 0 5 15 25 35 40 45",
+		"pconc kc 0 / part m", "prepl 0 5 15 25 35 40 45",
+		"pconc add 1 / kc 0", "prepl 0 5 15 25 35 40 45", "pconc rem 0 / add 0", "prepl 0 5 15 25 35 40 45",
+		"psch 1 n:1=2", "pconc kc 1 / kc 0", "psettled", "prepl 1 5 15 25 35 40 45", "pconc kc 1 / up 0", "pconc up 0 / rem 3")
 	// KeyspaceChanged(ks1) before the policy has a ring: no entry, and none after the ring events (model-vs-code)
 	seq("resetpol 0 1/1/1/1/10 2/2/1/1/30",
 		"psch 1 s:2", "pev kc 1", "pev part o", "pev add 0", "pev add 1", "pfresh", "psettled", "xprepl 1 15 25",
